@@ -198,6 +198,8 @@ def jobs(tier, seed):
     add('dobs', kinds=['strided', 'irregular'])          # different configuration subsets in one file
     add('dobs', kinds=['replicas', 'range'])
     add('dobs', kinds=['rangelike', 'rangelike2'])
+    add('dobs', kinds=['odd', 'even'])                   # same stride, different offsets on a shared replica
+    add('dobs', kinds=['jack', 'range'])
     add('pobs', kinds=['rangelike', 'rangelike'], sepmode='int')
     add('dobs', kinds=['multi'])
     add('dobs', kinds=['covmix', 'range', 'cov'])
